@@ -278,7 +278,7 @@ def _is_m110(data):
 
 
 def run_direct(stmts, acks, status=None, late_hs=False, settle=0.02, do_disconnect=True, readings=False,
-               deadline=2.5, mode="serial"):
+               deadline=2.5, mode="serial", lose_at=0):
     """Drive the real SerialWriter/PrintrunWriter. stmts: list of bytes handed to write(); acks: the reply line
     (bytes) the device gives to each statement; status: {k: [lines pushed before the ack of statement k]};
     late_hs: the ok of the second start-up M110 is released only after the first write() began."""
@@ -363,11 +363,19 @@ def run_direct(stmts, acks, status=None, late_hs=False, settle=0.02, do_disconne
                 for line in status.get(k, []):
                     hub.push(line)
                 time.sleep(settle)             # a window in which a too-eager write() can return; never a verdict
-                if got_tx:
+                if lose_at == k:
+                    with hub.lock:             # the link drops before this statement is acknowledged
+                        hub.closed = True
+                        hub.events.append({"k": "lost", "s": k})
+                        hub.cv.notify_all()
+                elif got_tx:
                     hub.push(acks[k - 1])
                 ok = await_(lambda: any(e["k"] == "ret" and e["s"] == k for e in hub.events), deadline)
                 if not ok:
                     hub.log({"k": "stuck", "s": k, "tx": got_tx})
+                    break
+                if lose_at == k:
+                    do_disconnect = False
                     break
             if do_disconnect:
                 hub.log({"k": "disc_call"})
